@@ -357,7 +357,70 @@ func xbRun(id string, thr int, steps []brStep) brResult {
 	return res
 }
 
+// xbBurst: the very first connection attempts to a dead server come from several goroutines at once (thr of them, all
+// refused): they are thr consecutive connection failures of that server, so the next attempt inside the window must
+// not dial.  GenBreaker is slow, so that the first lookups overlap.  case: xburst|thr
+func xbBurst(o *common.Out, id string, thr int) {
+	abstract := fmt.Sprintf("xburst|%d", thr)
+	o.Begin(id, abstract)
+	addr := "xburst-" + id
+	var dials, accept int32
+	vrefuseMu.Lock()
+	vrefuseDials[addr] = &dials
+	vrefuseOK[addr] = &accept
+	vrefuseMu.Unlock()
+	d, _ := client.NewPeer2PeerDiscovery("vrefuse@"+addr, "")
+	opt := client.DefaultOption
+	opt.Retries = 0
+	opt.SerializeType = protocol.JSON
+	window := 2 * time.Second
+	opt.GenBreaker = func() client.Breaker {
+		time.Sleep(15 * time.Millisecond)
+		return client.NewConsecCircuitBreaker(uint64(thr), window)
+	}
+	xc := client.NewXClient("Arith", client.Failfast, client.RandomSelect, d, opt)
+	defer xc.Close()
+	var wg sync.WaitGroup
+	start := make(chan struct{})
+	for i := 0; i < thr; i++ {
+		wg.Add(1)
+		go func() {
+			defer wg.Done()
+			<-start
+			var reply int
+			ctx, cancel := context.WithTimeout(context.Background(), 2*time.Second)
+			xc.Call(ctx, "Mul", 1, &reply)
+			cancel()
+		}()
+	}
+	close(start)
+	wg.Wait()
+	refused := atomic.LoadInt32(&dials)
+	var reply int
+	ctx, cancel := context.WithTimeout(context.Background(), 2*time.Second)
+	err := xc.Call(ctx, "Mul", 1, &reply)
+	cancel()
+	after := atomic.LoadInt32(&dials)
+	if int(refused) >= thr && after != refused {
+		o.Fail(id, "xclient-dial-trace", fmt.Sprintf("%d connection attempts (made at the same time) were refused, threshold %d, window not elapsed, yet the server was dialled again (err=%v)", refused, thr, err), abstract)
+	}
+	o.ImplOnly(id, abstract, int(refused) >= thr)
+	o.Count("xclient-dial-burst")
+}
+
 func runC18(r *common.Rand, tier string, o *common.Out, replay string) {
+	if strings.HasPrefix(replay, "xburst|") {
+		thr, _ := strconv.Atoi(strings.Split(replay, "|")[1])
+		xbBurst(o, "replay", thr)
+		return
+	}
+	if replay == "" {
+		for rep := 0; rep < 3; rep++ {
+			for thr := 2; thr <= 4; thr++ {
+				xbBurst(o, fmt.Sprintf("burst%d-%d", thr, rep), thr)
+			}
+		}
+	}
 	if replay != "" {
 		var res brResult
 		if strings.HasPrefix(replay, "xbr|") {
